@@ -832,8 +832,20 @@ func (t *tScreen) drawCell(x, y int) int {
 			t.TPuts(ti.InsertChar)
 			t.cy = y
 			t.cx = x - 1
-			t.cells.SetDirty(x-1, y, true)
-			_ = t.drawCell(x-1, y)
+			// Repaint what belongs in the second to last column.  When that
+			// column is the right half of a wide character, the character
+			// itself was clobbered above and has to be drawn again.
+			px := 0
+			for cx := 0; cx < x; {
+				_, _, _, w := t.cells.GetContent(cx, y)
+				if w < 1 {
+					w = 1
+				}
+				px = cx
+				cx += w
+			}
+			t.cells.SetDirty(px, y, true)
+			_ = t.drawCell(px, y)
 			t.TPuts(t.ti.TGoto(0, 0))
 			t.cy = 0
 			t.cx = 0
